@@ -241,6 +241,16 @@ def contracts(env):
     return cs
 
 
+def extra(rep, tier, seed, budget):
+    from bounded import integrate as _integ
+    _integ.system_histories(rep, tier, seed, ['C12_holds'])
+
+
+def replay_file(data):
+    from bounded import integrate as _integ
+    return _integ.replay(data)
+
+
 META = {
     'level': 'proof',
     'explanation': 'early_checks and check_dependencies verified against the statement (the latter for 0..3 '
